@@ -44,7 +44,7 @@ Clauses == {
   "C10_StageOccupancy", "C10_RequestThreadsLeR",
   "C11_UploadBuffers", "C11_DownloadWindow", "C11_IoQueue",
   "C12_AllPermitsReturned",
-  "C14_MultipartIffGeThreshold",
+  "C14_MultipartIffGeThreshold", "C14_DownloadRangesTile",
   "C16_StreamInOrderExactlyOnce",
   "C17_DoneNeverReverts",
   "C18_NothingAfterShutdownReturns", "C18_AllDoneAtShutdownReturn",
@@ -163,9 +163,25 @@ Holds(c, o) ==
     [] c = "C12_AllPermitsReturned" -> (o.ended /\ o.stuck = "") => ~o.permsBad
 
     [] c = "C14_MultipartIffGeThreshold" ->
-         AllX(o, LAMBDA xr : (IsUp(xr) /\ Ok(xr)) =>
+         \* (a stream whose sized reads return short cannot be measured by
+         \* the threshold pre-read; the decision is not required of it)
+         AllX(o, LAMBDA xr : (IsUp(xr) /\ Ok(xr) /\ ~xr.shortsrc) =>
                ((xr.objVia = "CompleteMultipartUpload") <=> (xr.size >= o.cfg.threshold)))
 
+    [] c = "C14_DownloadRangesTile" ->
+         \* the ranges requested by a successful download are consecutive,
+         \* start at 0, end at the last byte; ranged exactly when size >= threshold
+         AllX(o, LAMBDA xr : (IsDl(xr) /\ Ok(xr)) =>
+               LET RECURSIVE Cover(_)
+                   Cover(pos) == IF pos = xr.size THEN TRUE
+                                 ELSE \E r \in xr.ranges : r[1] = pos /\ r[2] > 0 /\ Cover(pos + r[2])
+                   RECURSIVE Sum(_)
+                   Sum(S) == IF S = {} THEN 0 ELSE LET r == CHOOSE r \in S : TRUE IN r[2] + Sum(S \ {r})
+               IN /\ Cover(0)
+                  /\ Sum(xr.ranges) = xr.size
+                  /\ (xr.size < o.cfg.threshold) => Cardinality(xr.ranges) = 1
+                  /\ (xr.size >= o.cfg.threshold) =>
+                        \A r \in xr.ranges : r[2] = o.cfg.chunk \/ (r[1] + r[2] = xr.size /\ r[2] <= o.cfg.chunk))
     [] c = "C16_StreamInOrderExactlyOnce" ->
          AllX(o, LAMBDA xr : (IsDl(xr) /\ xr.dstk = "nonseekable") =>
                /\ ~xr.sbad
